@@ -1,4 +1,5 @@
 import OnlVerif.Lemmas.SchedSP
+import OnlVerif.Lemmas.GenSp13
 /-!
 # C13 — static priority always serves the highest-priority backlogged flow
 
@@ -106,6 +107,51 @@ theorem sp_no_abort (cfg : Cfg ℚ) (s s' : MQState ℚ Pc) (a : MAct ℚ) (o : 
     exact ⟨fun c _ => Or.inr rfl, fun _ => Or.inr rfl, fun d _ => Or.inr ⟨rfl, fun _ hx => (by cases hx)⟩⟩
   | sample inc =>
     exact ⟨fun c _ => Or.inr rfl, fun _ => Or.inr rfl, fun d _ => Or.inr ⟨rfl, fun _ hx => (by cases hx)⟩⟩
+
+/-! ### The source, re-translated on every run, *is* the model (bridge theorems)
+
+`Generated/Sp13.lean` is rewritten by `py2lean` (`more.py`) from the current `onl/scheduler/sp.py` before this file is
+compiled: the table `SP.__init__` builds (`sorted(priorities.items(), key=lambda item: item[1], reverse=True)` as Python's
+stable sort, `Gen.pySorted` = core's `List.mergeSort`), what the body of `for flow_id, prio in self.priorities` does with
+one entry (`Gen.SP.run_entry`), the scan (`Gen.SP.run_scan`) and the end-of-pass test (`Gen.SP.run_wait`).  The frame of
+`run` (`while True` / the `for` over `self.priorities` / the end-of-pass `if` with `yield self.packets_available.get()`) and
+the sequence get → annotation → `send_packet` are checked structurally by the translator. -/
+
+/-- **The table as built in the source is the model's table**: Python's `sorted(…, key=priority, reverse=True)` — stable,
+descending — of the `priorities` dict (in insertion order) is `SP.sortDesc`, hence `SP.table`: most urgent first, flows of
+equal priority in the order in which they were configured. -/
+theorem sp_order_generated_eq_model {α : Type} [Num α] (cfg : Cfg α) :
+    Gen.SP.init_order cfg.prios = sortDesc cfg.prios ∧ Gen.SP.init_order cfg.prios = table cfg :=
+  ⟨GenSp13.order_eq cfg.prios, GenSp13.order_eq cfg.prios⟩
+
+/-- **The scan as written in the source is the model's scan.**  (i) One move of the model at entry `i` of the table is the
+translated loop body on that entry: priority not positive or store empty → next entry, else take the head of that store.
+(ii) So a pass serves the *first* entry in table order with a positive priority and a non-empty store.  (iii) Whenever the
+body serves it leaves the `for` with `break`, i.e. the scan starts again from the top (`rescan = true`; in the model: after
+the transmission the loop is at `endPass`, which continues at `scan 0`).  (iv) At the end of a pass the server waits on
+`packets_available` iff `total_packets == 0`, else rescans at once. -/
+theorem sp_pick_generated_eq_model {α : Type} [Num α] (cfg : Cfg α) (v : MQ.View) :
+    (∀ i, micro cfg (.scan i) v =
+      match (table cfg)[i]? with
+      | none => .goto .endPass
+      | some (f, pr) =>
+        match Gen.SP.run_entry pr (v.storeLen f : Nat) with
+        | .next => .goto (.scan (i + 1))
+        | .serve _ => .get f (.got i)) ∧
+    (∀ (size : Nat → Int) (t : List (Nat × Int)),
+      Gen.SP.run_scan size t = t.find? (fun e => decide (0 < e.2) && !decide (size e.1 = 0))) ∧
+    (∀ pr size r, Gen.SP.run_entry pr size = .serve r → r = true) ∧
+    (∀ p, onDone .sent p = .ok .endPass) ∧
+    micro cfg .endPass v = (if Gen.SP.run_wait v.total = true then .block (.scan 0) else .goto (.scan 0)) :=
+  ⟨fun i => GenSp13.micro_scan_eq cfg i v, GenSp13.run_scan_eq, GenSp13.serve_rescans, fun _ => rfl,
+   GenSp13.micro_endPass_eq cfg v⟩
+
+/-- the translated table and scan on the example below: priorities L(1), M(3), H(5) configured in that order, a second flow
+with priority 3 configured last stays behind the first; with H empty and both M flows backlogged the first M flow is served -/
+example : Gen.SP.init_order [(1, 1), (2, 3), (3, 5), (4, 3)] = [(3, 5), (2, 3), (4, 3), (1, 1)] ∧
+    Gen.SP.run_scan (fun f => if f = 3 then 0 else 2) (Gen.SP.init_order [(1, 1), (2, 3), (3, 5), (4, 3)]) = some (2, 3) := by
+  rw [GenSp13.order_eq]      -- `List.mergeSort` is defined by well-founded recursion: evaluated through the bridge
+  decide +kernel
 
 /-! ### non-vacuity -/
 
